@@ -82,4 +82,308 @@ theorem primOfCode_mono {cfg : Cfg} {v c : Nat} {bs r : Bytes} {x : SPrim} (s : 
       exact ⟨h.1, by rw [h.2]⟩
   · cases h
 
+/-- all six readers at fuel `f`: success is stable under appended bytes and under more fuel -/
+def SMono (cfg : Cfg) (v : Nat) (s : Bytes) (f : Nat) : Prop :=
+  (∀ bs x r, decSchema cfg v f bs = .ok (x, r) → ∀ f', f ≤ f' → decSchema cfg v f' (bs ++ s) = .ok (x, r ++ s))
+  ∧ (∀ n bs x r, decFields cfg v f n bs = .ok (x, r) → ∀ f', f ≤ f' → decFields cfg v f' n (bs ++ s) = .ok (x, r ++ s))
+  ∧ (∀ n bs x r, decVariants cfg v f n bs = .ok (x, r) → ∀ f', f ≤ f' → decVariants cfg v f' n (bs ++ s) = .ok (x, r ++ s))
+  ∧ (∀ bs x r, decDef cfg v f bs = .ok (x, r) → ∀ f', f ≤ f' → decDef cfg v f' (bs ++ s) = .ok (x, r ++ s))
+  ∧ (∀ n bs x r, decMethods cfg v f n bs = .ok (x, r) → ∀ f', f ≤ f' → decMethods cfg v f' n (bs ++ s) = .ok (x, r ++ s))
+  ∧ (∀ n bs x r, decSchemaL cfg v f n bs = .ok (x, r) → ∀ f', f ≤ f' → decSchemaL cfg v f' n (bs ++ s) = .ok (x, r ++ s))
+
+/- one `match X with | .error e => .error e | .ok (a, r) => …` layer: the error branch contradicts `h`, the
+   success branch rewrites the goal with the monotonicity of `X` -/
+set_option hygiene false in
+local macro "bindstep " lem:term : tactic => `(tactic| (
+  split at h
+  cases h
+  rename_i _a _r hx
+  rw [$lem hx]
+  simp only))
+
+set_option hygiene false in
+local macro "finish" : tactic => `(tactic| (
+  simp only [Except.ok.injEq, Prod.mk.injEq] at h
+  obtain ⟨h1, h2⟩ := h
+  subst h1; subst h2; rfl))
+
+theorem smono_zero (cfg : Cfg) (v : Nat) (s : Bytes) : SMono cfg v s 0 := by
+  refine ⟨?_, ?_, ?_, ?_, ?_, ?_⟩
+  · intro bs x r h; simp [decSchema] at h
+  · intro n bs x r h f' _
+    cases n with
+    | zero =>
+      simp only [decFields, Except.ok.injEq, Prod.mk.injEq] at h
+      obtain ⟨h1, h2⟩ := h; subst h1; subst h2
+      cases f' <;> simp [decFields]
+    | succ n => simp [decFields] at h
+  · intro n bs x r h f' _
+    cases n with
+    | zero =>
+      simp only [decVariants, Except.ok.injEq, Prod.mk.injEq] at h
+      obtain ⟨h1, h2⟩ := h; subst h1; subst h2
+      cases f' <;> simp [decVariants]
+    | succ n => simp [decVariants] at h
+  · intro bs x r h; simp [decDef] at h
+  · intro n bs x r h f' _
+    cases n with
+    | zero =>
+      simp only [decMethods, Except.ok.injEq, Prod.mk.injEq] at h
+      obtain ⟨h1, h2⟩ := h; subst h1; subst h2
+      cases f' <;> simp [decMethods]
+    | succ n => simp [decMethods] at h
+  · intro n bs x r h f' _
+    cases n with
+    | zero =>
+      simp only [decSchemaL, Except.ok.injEq, Prod.mk.injEq] at h
+      obtain ⟨h1, h2⟩ := h; subst h1; subst h2
+      cases f' <;> simp [decSchemaL]
+    | succ n => simp [decSchemaL] at h
+
+/-- the six facts at inner fuel `g` → `g'`, in the form the proofs below rewrite with -/
+structure MonoAt (cfg : Cfg) (v : Nat) (s : Bytes) (g g' : Nat) : Prop where
+  S : ∀ {bs x r}, decSchema cfg v g bs = .ok (x, r) → decSchema cfg v g' (bs ++ s) = .ok (x, r ++ s)
+  F : ∀ {n bs x r}, decFields cfg v g n bs = .ok (x, r) → decFields cfg v g' n (bs ++ s) = .ok (x, r ++ s)
+  V : ∀ {n bs x r}, decVariants cfg v g n bs = .ok (x, r) → decVariants cfg v g' n (bs ++ s) = .ok (x, r ++ s)
+  D : ∀ {bs x r}, decDef cfg v g bs = .ok (x, r) → decDef cfg v g' (bs ++ s) = .ok (x, r ++ s)
+  M : ∀ {n bs x r}, decMethods cfg v g n bs = .ok (x, r) → decMethods cfg v g' n (bs ++ s) = .ok (x, r ++ s)
+  L : ∀ {n bs x r}, decSchemaL cfg v g n bs = .ok (x, r) → decSchemaL cfg v g' n (bs ++ s) = .ok (x, r ++ s)
+
+theorem monoAt_of {cfg : Cfg} {v : Nat} {s : Bytes} {g g' : Nat} (ih : SMono cfg v s g) (hge : g ≤ g') : MonoAt cfg v s g g' :=
+  ⟨fun h => ih.1 _ _ _ h g' hge, fun h => ih.2.1 _ _ _ _ h g' hge, fun h => ih.2.2.1 _ _ _ _ h g' hge,
+   fun h => ih.2.2.2.1 _ _ _ h g' hge, fun h => ih.2.2.2.2.1 _ _ _ _ h g' hge, fun h => ih.2.2.2.2.2 _ _ _ _ h g' hge⟩
+
+theorem decSchemaL_step {cfg : Cfg} {v : Nat} {s : Bytes} {g g' : Nat} (m : MonoAt cfg v s g g') :
+    ∀ n bs x r, decSchemaL cfg v (g + 1) n bs = .ok (x, r) → decSchemaL cfg v (g' + 1) n (bs ++ s) = .ok (x, r ++ s) := by
+  intro n bs x r h
+  cases n with
+  | zero =>
+    simp only [decSchemaL, Except.ok.injEq, Prod.mk.injEq] at h
+    obtain ⟨h1, h2⟩ := h; subst h1; subst h2
+    simp [decSchemaL]
+  | succ n =>
+    simp only [decSchemaL] at h ⊢
+    bindstep m.S
+    bindstep m.L
+    finish
+
+theorem decFields_step {cfg : Cfg} {v : Nat} {s : Bytes} {g g' : Nat} (m : MonoAt cfg v s g g') :
+    ∀ n bs x r, decFields cfg v (g + 1) n bs = .ok (x, r) → decFields cfg v (g' + 1) n (bs ++ s) = .ok (x, r ++ s) := by
+  intro n bs x r h
+  cases n with
+  | zero =>
+    simp only [decFields, Except.ok.injEq, Prod.mk.injEq] at h
+    obtain ⟨h1, h2⟩ := h; subst h1; subst h2
+    simp [decFields]
+  | succ n =>
+    simp only [decFields] at h ⊢
+    bindstep readStr_mono s
+    bindstep m.S
+    by_cases hv : v > 0
+    · simp only [hv, if_true] at h ⊢
+      bindstep readOptNat_mono s
+      bindstep m.F
+      finish
+    · simp only [hv, if_false] at h ⊢
+      bindstep m.F
+      finish
+
+theorem decVariants_step {cfg : Cfg} {v : Nat} {s : Bytes} {g g' : Nat} (m : MonoAt cfg v s g g') :
+    ∀ n bs x r, decVariants cfg v (g + 1) n bs = .ok (x, r) → decVariants cfg v (g' + 1) n (bs ++ s) = .ok (x, r ++ s) := by
+  intro n bs x r h
+  cases n with
+  | zero =>
+    simp only [decVariants, Except.ok.injEq, Prod.mk.injEq] at h
+    obtain ⟨h1, h2⟩ := h; subst h1; subst h2
+    simp [decVariants]
+  | succ n =>
+    simp only [decVariants] at h ⊢
+    bindstep readStr_mono s
+    bindstep readLE_mono s
+    bindstep readLE_mono s
+    bindstep m.F
+    bindstep m.V
+    finish
+
+theorem decDef_step {cfg : Cfg} {v : Nat} {s : Bytes} {g g' : Nat} (m : MonoAt cfg v s g g') :
+    ∀ bs x r, decDef cfg v (g + 1) bs = .ok (x, r) → decDef cfg v (g' + 1) (bs ++ s) = .ok (x, r ++ s) := by
+  intro bs x r h
+  simp only [decDef] at h ⊢
+  bindstep readStr_mono s
+  split at h
+  · cases h
+  · next name sync send hp =>
+    try simp only [hp]
+    bindstep readLE_mono s
+    split at h
+    · cases h
+    · rename_i hsan
+      try simp only [hsan, if_false]
+      bindstep m.M
+      finish
+
+theorem decMethods_step {cfg : Cfg} {v : Nat} {s : Bytes} {g g' : Nat} (m : MonoAt cfg v s g g') :
+    ∀ n bs x r, decMethods cfg v (g + 1) n bs = .ok (x, r) → decMethods cfg v (g' + 1) n (bs ++ s) = .ok (x, r ++ s) := by
+  intro n bs x r h
+  cases n with
+  | zero =>
+    simp only [decMethods, Except.ok.injEq, Prod.mk.injEq] at h
+    obtain ⟨h1, h2⟩ := h; subst h1; subst h2
+    simp [decMethods]
+  | succ n =>
+    simp only [decMethods] at h ⊢
+    bindstep readStr_mono s
+    bindstep m.S
+    by_cases hv : v ≥ 2
+    · simp only [hv, if_true] at h ⊢
+      -- receiver and async flag
+      cases hrc : readLE 1 _r with
+      | error e => simp [hrc] at h
+      | ok p =>
+        obtain ⟨rc, r3⟩ := p
+        rw [readLE_mono s hrc]
+        simp only [hrc] at h ⊢
+        by_cases hok : receiverOk rc = true
+        · simp only [hok, if_true] at h ⊢
+          cases hb : readBool r3 with
+          | error e => simp [hb] at h
+          | ok q =>
+            obtain ⟨a, r4⟩ := q
+            rw [readBool_mono s hb]
+            simp only [hb] at h ⊢
+            bindstep readLE_mono s
+            split at h
+            · cases h
+            · rename_i hsan
+              try rw [if_neg hsan]
+              bindstep m.L
+              bindstep m.M
+              finish
+        · simp [hok] at h
+    · simp only [hv, if_false] at h ⊢
+      bindstep readLE_mono s
+      split at h
+      · cases h
+      · rename_i hsan
+        try rw [if_neg hsan]
+        bindstep m.L
+        bindstep m.M
+        finish
+
+theorem decSchema_step {cfg : Cfg} {v : Nat} {s : Bytes} {g g' : Nat} (m : MonoAt cfg v s g g') :
+    ∀ bs x r, decSchema cfg v (g + 1) bs = .ok (x, r) → decSchema cfg v (g' + 1) (bs ++ s) = .ok (x, r ++ s) := by
+  intro bs x r h
+  simp only [decSchema] at h ⊢
+  cases htag : readLE 1 bs with
+  | error e => simp [htag] at h
+  | ok p =>
+    obtain ⟨tag, r0⟩ := p
+    rw [readLE_mono s htag]
+    simp only [htag] at h ⊢
+    split at h
+    · -- struct
+      bindstep readStr_mono s
+      bindstep readLE_mono s
+      by_cases hv : v > 0
+      · simp only [hv, if_true] at h ⊢
+        bindstep readOptNat_mono s
+        bindstep readOptNat_mono s
+        bindstep m.F
+        finish
+      · simp only [hv, if_false] at h ⊢
+        bindstep m.F
+        finish
+    · -- enum
+      bindstep readStr_mono s
+      bindstep readLE_mono s
+      bindstep m.V
+      by_cases hv : v > 0
+      · simp only [hv, if_true] at h ⊢
+        bindstep readLE_mono s
+        bindstep readBool_mono s
+        bindstep readOptNat_mono s
+        bindstep readOptNat_mono s
+        finish
+      · simp only [hv, if_false] at h ⊢
+        finish
+    · -- primitive
+      bindstep readLE_mono s
+      bindstep primOfCode_mono s
+      finish
+    · -- vector
+      bindstep m.S
+      by_cases hv : v > 0
+      · simp only [hv, if_true] at h ⊢
+        bindstep readLE_mono s
+        finish
+      · simp only [hv, if_false] at h ⊢
+        finish
+    · finish
+    · finish
+    · bindstep m.S
+      finish
+    · bindstep readLE_mono s
+      bindstep m.S
+      finish
+    · bindstep readStr_mono s
+      finish
+    · bindstep m.S
+      finish
+    · bindstep readBool_mono s
+      bindstep m.D
+      finish
+    · bindstep m.S
+      finish
+    · finish
+    · bindstep m.S
+      finish
+    · bindstep readBool_mono s
+      bindstep m.D
+      finish
+    · bindstep readLE_mono s
+      finish
+    · finish
+    · bindstep readLE_mono s
+      bindstep m.D
+      finish
+    · finish
+    · finish
+    · cases h
+
+theorem smono_succ {cfg : Cfg} {v : Nat} {s : Bytes} {g : Nat} (ih : SMono cfg v s g) : SMono cfg v s (g + 1) := by
+  refine ⟨?_, ?_, ?_, ?_, ?_, ?_⟩
+  · intro bs x r h f' hf
+    cases f' with
+    | zero => omega
+    | succ g' => exact decSchema_step (monoAt_of ih (by omega)) bs x r h
+  · intro n bs x r h f' hf
+    cases f' with
+    | zero => omega
+    | succ g' => exact decFields_step (monoAt_of ih (by omega)) n bs x r h
+  · intro n bs x r h f' hf
+    cases f' with
+    | zero => omega
+    | succ g' => exact decVariants_step (monoAt_of ih (by omega)) n bs x r h
+  · intro bs x r h f' hf
+    cases f' with
+    | zero => omega
+    | succ g' => exact decDef_step (monoAt_of ih (by omega)) bs x r h
+  · intro n bs x r h f' hf
+    cases f' with
+    | zero => omega
+    | succ g' => exact decMethods_step (monoAt_of ih (by omega)) n bs x r h
+  · intro n bs x r h f' hf
+    cases f' with
+    | zero => omega
+    | succ g' => exact decSchemaL_step (monoAt_of ih (by omega)) n bs x r h
+
+theorem smono (cfg : Cfg) (v : Nat) (s : Bytes) : ∀ f, SMono cfg v s f
+  | 0 => smono_zero cfg v s
+  | f + 1 => smono_succ (smono cfg v s f)
+
+/-- the schema reader is monotone in the bytes that follow and in its fuel -/
+theorem decSchema_mono (cfg : Cfg) (v : Nat) (s bs : Bytes) (f f' : Nat) (x : Schema) (r : Bytes)
+    (h : decSchema cfg v f bs = .ok (x, r)) (hf : f ≤ f') : decSchema cfg v f' (bs ++ s) = .ok (x, r ++ s) :=
+  (smono cfg v s f).1 bs x r h f' hf
+
 end Sfv
